@@ -32,6 +32,7 @@ import (
 	"sync"
 	"time"
 
+	"github.com/caddyserver/certmagic"
 	"github.com/tmpim/casket"
 	"github.com/tmpim/casket/casketfile"
 	"github.com/tmpim/casket/caskethttp/httpserver"
@@ -53,9 +54,18 @@ type c15Site struct {
 	Bind   string  `json:"bind,omitempty"`
 	TLS    *c15TLS `json:"tls,omitempty"`
 }
+// c15Set: the process-level settings the pipeline reads (-port, -host, -http-port, -https-port)
+type c15Set struct {
+	Port  string `json:"port"`
+	Host  string `json:"host,omitempty"`
+	HTTP  int    `json:"http"`
+	HTTPS int    `json:"https"`
+}
 type c15In struct {
 	Kind  string    `json:"kind"` // pipe | act | redir | redire2e | class | ip | net | split
 	Sites []c15Site `json:"sites,omitempty"`
+	// pipe | act under non-default process settings (nil = defaults, the original case form)
+	Set *c15Set `json:"set,omitempty"`
 	// redir
 	RPort  string `json:"rport,omitempty"`
 	Method string `json:"method,omitempty"`
@@ -230,17 +240,20 @@ func c15TLSOn(t *c15TLS) bool { return t != nil && !(t.Arg == "a1" && t.Val == "
 // (fixed in casket; the class keeps its name so that a regression is reported under it).  The open
 // class is tested first: a site set that belongs to both is reported under the open finding.
 // Everything else is "pipe".
-func c15PipeSig(sites []c15Site, obsA []c15Obs) string {
+func c15PipeSig(sites []c15Site, obsA []c15Obs) string { return c15PipeSigS(sites, obsA, "80", "443") }
+
+// c15PipeSigS: the same classes with the configured HTTP / HTTPS ports
+func c15PipeSigS(sites []c15Site, obsA []c15Obs, hp, hsp string) string {
 	// a TLS site on a port other than 443 whose same-host sibling on :443 is itself not eligible for a
 	// redirect (TLS not enabled there, or no_redirect): judged on the site list after the callback stages
 	for i := range sites {
 		s := obsA[i]
-		if !s.Enabled || s.NoRedirect || s.Port == "443" || s.Port == "80" || s.Scheme == "http" {
+		if !s.Enabled || s.NoRedirect || s.Port == hsp || s.Port == hp || s.Scheme == "http" {
 			continue
 		}
 		for j := range sites {
 			o := obsA[j]
-			if i != j && o.Host == s.Host && o.Port == "443" && (!o.Enabled || o.NoRedirect) {
+			if i != j && o.Host == s.Host && o.Port == hsp && (!o.Enabled || o.NoRedirect) {
 				return "pipe:alt-port-tls-site-with-ineligible-443-sibling"
 			}
 		}
@@ -296,6 +309,14 @@ func c15RunPipe(in *c15In) Result { return c15RunPipeX(in, false) }
 // which no site needs a certificate obtained at startup (no ACME, no network) are run that way.
 func c15RunPipeX(in *c15In, real bool) Result {
 	c15Init()
+	set := in.Set
+	hp, hsp := "80", "443"
+	if set != nil {
+		oP, oH, oHP, oHS := httpserver.Port, httpserver.Host, certmagic.HTTPPort, certmagic.HTTPSPort
+		httpserver.Port, httpserver.Host, certmagic.HTTPPort, certmagic.HTTPSPort = set.Port, set.Host, set.HTTP, set.HTTPS
+		defer func() { httpserver.Port, httpserver.Host, certmagic.HTTPPort, certmagic.HTTPSPort = oP, oH, oHP, oHS }()
+		hp, hsp = fmt.Sprint(set.HTTP), fmt.Sprint(set.HTTPS)
+	}
 	sites := append([]c15Site(nil), in.Sites...)
 	for _, s := range sites {
 		if c15SiteKey(s) == "" {
@@ -318,6 +339,9 @@ func c15RunPipeX(in *c15In, real bool) Result {
 	// 1. each address alone: a rejected declaration becomes an address-error case
 	for _, s := range sites {
 		if _, _, err := parse([]c15Site{{Scheme: s.Scheme, Host: s.Host, Port: s.Port, Path: s.Path}}); err != nil {
+			if strings.Contains(err.Error(), "violate convention") && set != nil {
+				return Result{Term: "CSkip", Obs: "address rejected: " + err.Error(), Sig: "pipes:addr-error", Class: "pipes:addr-error"}
+			}
 			if strings.Contains(err.Error(), "violate convention") {
 				return Result{Term: cApp("CAddrErr", cStr(s.Scheme), cStr(s.Port)), Obs: "address rejected: " + err.Error(),
 					Sig: "pipe:addr-error", Class: "pipe:addr-error"}
@@ -403,6 +427,7 @@ func c15RunPipeX(in *c15In, real bool) Result {
 	obsBTerm := "None"
 	var obsB []c15Obs
 	var msErr error
+	var srv []string
 	if real {
 		for _, o := range obsA[:len(sites)] {
 			if o.Managed && !o.OnDem {
@@ -450,7 +475,14 @@ func c15RunPipeX(in *c15In, real bool) Result {
 	} else if runMS {
 		// configuration errors of MakeServers (e.g. TLS and non-TLS sites on one listener) come after
 		// the per-site loop and the default-port pass, which is all this property observes
-		_, msErr = ctx.MakeServers()
+		var servers []casket.Server
+		servers, msErr = ctx.MakeServers()
+		for _, sv := range servers {
+			if h, ok := sv.(*httpserver.Server); ok {
+				_, prt, _ := net.SplitHostPort(h.Address())
+				srv = append(srv, cPair(cStr(prt), cBool(h.Server.TLSConfig != nil)))
+			}
+		}
 		var d2 string
 		obsB, d2 = c15Observe(httpserver.VerifC15SiteConfigs(ctx), len(sites))
 		if direct == "" {
@@ -464,6 +496,38 @@ func c15RunPipeX(in *c15In, real bool) Result {
 		if o.Managed || o.Enabled {
 			nt = true
 		}
+	}
+	if set != nil {
+		sig := c15PipeSigS(sites, obsA, hp, hsp)
+		kind := "pipes"
+		if real {
+			kind = "acts"
+		}
+		// F-C15-4 (open): with a non-default -http-port, a site whose effective port IS that HTTP port is
+		// still marked Managed (QualifiesForManagedTLS compares the port with the literal "80") and
+		// enableAutoHTTPS gives it the scheme https; MakeServers then disables its TLS.  Tested first.
+		f4 := false
+		for _, o := range obsA[:len(sites)] {
+			if hp != "80" && o.Port == hp && o.Managed {
+				f4 = true
+			}
+		}
+		if f4 {
+			sig = kind + ":managed-site-on-nondefault-http-port"
+		} else if sig == "pipe" {
+			sig = kind
+		} else {
+			sig = kind + strings.TrimPrefix(sig, "pipe")
+		}
+		var wh []string
+		for _, s := range sites {
+			wh = append(wh, cStr(s.Host))
+		}
+		cls := fmt.Sprintf("%s:port=%s:http=%s:https=%s:host=%v", sig, set.Port, hp, hsp, set.Host != "")
+		st := cApp("Build_settings", cStr(set.Port), cStr(set.Host), cStr(hp), cStr(hsp))
+		return Result{Term: cApp("CPipeS", st, cList(wh), cList(ds), c15SitesTerm(obsA), obsBTerm, cList(srv)),
+			Obs:        map[string]interface{}{"after_callback": obsA, "after_MakeServers": obsB, "MakeServers_error": fmt.Sprint(msErr), "servers_port_tls": srv},
+			Sig:        sig, Nontrivial: nt, Direct: direct, Class: cls}
 	}
 	sig := c15PipeSig(sites, obsA)
 	cls := fmt.Sprintf("pipe:sites%d:redir%d", len(sites), nsyn)
@@ -956,6 +1020,80 @@ func c15Gen(r *Rand, tier string) []interface{} {
 		}
 		out = append(out, in)
 	}
+	// ---- process-level settings (-port, -host, -http-port, -https-port) varied: the pure stages (pipe)
+	// and the real activateHTTPS / MakeServers through casket.Start (act).  Most declarations leave the
+	// port (some also the host) to the defaults, so that the settings decide the effective address.
+	genSet := func() *c15Set {
+		st := &c15Set{Port: r.Pick([]string{"2015", "80", "80", "80", "443", "8080", "8443", "2016"}), HTTP: 80, HTTPS: 443}
+		if r.Chance(30) {
+			st.Host = r.Pick([]string{"example.com", "localhost", "b.local", "www.example.org"})
+		}
+		if r.Chance(25) {
+			st.HTTP = []int{8080, 2016, 81}[r.Intn(3)]
+			if r.Chance(50) {
+				st.Port = fmt.Sprint(st.HTTP)
+			}
+		}
+		if r.Chance(20) {
+			st.HTTPS = []int{8443, 4430}[r.Intn(2)]
+			if r.Chance(30) {
+				st.Port = fmt.Sprint(st.HTTPS)
+			}
+		}
+		return st
+	}
+	nPipeS, nActS := 500, 250
+	if tier == "thorough" {
+		nPipeS, nActS = 6000, 2500
+	}
+	for i := 0; i < nPipeS; i++ {
+		in := &c15In{Kind: "pipe", Set: genSet()}
+		pool := []string{r.Pick([]string{"example.com", "www.example.org", "a.example.net", "localhost", "b.local", "10.0.0.1", ""})}
+		if r.Chance(40) {
+			pool = append(pool, r.Pick(c15SiteHosts))
+		}
+		for j := r.Range(1, 3); j > 0; j-- {
+			s := c15GenSite(r, pool)
+			if r.Chance(60) {
+				s.Port = ""
+				if r.Chance(70) {
+					s.Scheme = ""
+				}
+			}
+			if r.Chance(10) {
+				s.Port = r.Pick([]string{fmt.Sprint(in.Set.HTTP), fmt.Sprint(in.Set.HTTPS), in.Set.Port})
+			}
+			if r.Chance(35) {
+				s.TLS = actTLS()
+			}
+			if c15SiteKey(s) == "" {
+				s.Path = "/a"
+			}
+			in.Sites = append(in.Sites, s)
+		}
+		out = append(out, in)
+	}
+	for i := 0; i < nActS; i++ {
+		in := &c15In{Kind: "act", Set: genSet()}
+		for j := r.Range(1, 3); j > 0; j-- {
+			s := c15Site{Host: r.Pick(actHosts), Port: r.Pick([]string{"", "", "", "", "443", "8443", "https", fmt.Sprint(in.Set.HTTPS), in.Set.Port}), TLS: actTLS()}
+			if r.Chance(10) {
+				s.Scheme = "https"
+			}
+			if s.TLS == nil {
+				if r.Bool() {
+					s.Scheme, s.Port = "http", r.Pick([]string{"", "", fmt.Sprint(in.Set.HTTP), "8081"})
+				} else {
+					s.Host, s.Port = r.Pick(plainHosts), r.Pick([]string{"", "8081", "80", "2015"})
+				}
+			}
+			if c15SiteKey(s) == "" {
+				s.Path = "/a"
+			}
+			in.Sites = append(in.Sites, s)
+		}
+		out = append(out, in)
+	}
 	// ---- redirect handler
 	rports := []string{"", "", "8443", "444", "2015", "65535", "4430"}
 	hosts := []string{"example.com", "example.com:80", "EXAMPLE.com:8080", "www.example.org:", "a.b.c", "1.2.3.4", "1.2.3.4:80", "localhost:80",
@@ -1195,7 +1333,7 @@ func c15Gen(r *Rand, tier string) []interface{} {
 func init() {
 	register(&Property{
 		ID: "C15", Imports: "V.Lib V.C15_Model", Judge: "judge", Shard: 500,
-		Rule: "act = the same declared sites as Casketfile text through casket.Start (REAL activateHTTPS as the tls parsing callback, real MakeServers; a probe directive records the site list and aborts before listening), only configurations where no certificate is obtained at startup; redire2e includes HTTPS sites declared with a path (several per host), targets below and outside the paths; redire2e = declared TLS sites through all real stages incl. MakeServers, the resulting HTTP-port server served on a loopback listener, one raw request over TCP, raw response observed (status, Location, Connection, connection closed); net = IPNet.Contains of the four private networks on net.ParseIP; ip also exhaustive over ':'-joined token sequences; pipe cases = Casketfile text through the real parser, InspectServerBlocks, bind/tls setups, the three pure stages of activateHTTPS and MakeServers, synthesised sites probed; redir = real redirect middleware on ReadRequest-parsed requests; class/ip/split = real classifiers and stdlib functions. non-trivial: pipe with at least one TLS-enabled or managed site, redir with a response, class with a positive classification, ip/split that parse; distinct = distinct Coq case term",
+		Rule: "pipe/act cases with `set` run under non-default process settings (httpserver.Port/Host, certmagic.HTTPPort/HTTPSPort set for the run and restored), judged as CPipeS with the settings-parametrised model and the spec on effective ports, servers built by MakeServers observed as (port, has TLS config); act = the same declared sites as Casketfile text through casket.Start (REAL activateHTTPS as the tls parsing callback, real MakeServers; a probe directive records the site list and aborts before listening), only configurations where no certificate is obtained at startup; redire2e includes HTTPS sites declared with a path (several per host), targets below and outside the paths; redire2e = declared TLS sites through all real stages incl. MakeServers, the resulting HTTP-port server served on a loopback listener, one raw request over TCP, raw response observed (status, Location, Connection, connection closed); net = IPNet.Contains of the four private networks on net.ParseIP; ip also exhaustive over ':'-joined token sequences; pipe cases = Casketfile text through the real parser, InspectServerBlocks, bind/tls setups, the three pure stages of activateHTTPS and MakeServers, synthesised sites probed; redir = real redirect middleware on ReadRequest-parsed requests; class/ip/split = real classifiers and stdlib functions. non-trivial: pipe with at least one TLS-enabled or managed site, redir with a response, class with a positive classification, ip/split that parse; distinct = distinct Coq case term",
 		Gen: c15Gen,
 		Decode: func(raw json.RawMessage) (interface{}, error) {
 			in := &c15In{}
